@@ -15,6 +15,7 @@ import (
 	"os"
 	"path/filepath"
 	"sort"
+	"strconv"
 	"strings"
 
 	"verif/checker/internal/engine"
@@ -79,6 +80,38 @@ func pegOf(c *engine.Context) *pegModel {
 		m.runFacts = peg.NewFacts(m.run)
 		return m
 	}).(*pegModel)
+}
+
+// normalisedActions: the case clauses of the generated Execute in the normalised source, by
+// action number.
+func normalisedActions(c *engine.Context) map[int]*ast.CaseClause {
+	return c.Memo("peg-normalised-actions", func() interface{} {
+		out := map[int]*ast.CaseClause{}
+		for _, f := range c.P.Files {
+			if !c.P.GenFiles[f] || f == c.P.GenFile {
+				continue
+			}
+			for _, d := range f.Decls {
+				fd, ok := d.(*ast.FuncDecl)
+				if !ok || fd.Name.Name != "Execute" || fd.Body == nil {
+					continue
+				}
+				ast.Inspect(fd.Body, func(n ast.Node) bool {
+					cc, ok := n.(*ast.CaseClause)
+					if !ok || len(cc.List) != 1 {
+						return true
+					}
+					if id, ok := cc.List[0].(*ast.Ident); ok && strings.HasPrefix(id.Name, "ruleAction") {
+						if k, err := strconv.Atoi(strings.TrimPrefix(id.Name, "ruleAction")); err == nil {
+							out[k] = cc
+						}
+					}
+					return true
+				})
+			}
+		}
+		return out
+	}).(map[int]*ast.CaseClause)
 }
 
 // ruleTVRules: TV-RULES.
@@ -850,32 +883,94 @@ func ruleWCapture(c *engine.Context) *report.Rule {
 		}
 		return false
 	}
-	// semantic use: `text` passed as argument to a call in the action that follows the capture,
-	// unless every such callee only records it for display (its name starts with set…Text / is the syntax-error constructor)
-	semantic := func(code string) (bool, string) {
+	// semantic use: the captured text (or a copy or substring of it) passed as an argument to a
+	// call in the action that follows the capture, unless the callee only records it for display
+	// (set…Text, the function node's text, the syntax-error constructor). The action is read
+	// from the normalised Execute (TV-ACTIONS ties it to the grammar), where helpers the tree
+	// did not have are expanded: what such a helper does with the text is judged, not its name.
+	normActs := normalisedActions(c)
+	semanticBody := func(body []ast.Stmt) (bool, string) {
+		taint := map[string]bool{"text": true}
+		var isText func(e ast.Expr) bool
+		isText = func(e ast.Expr) bool {
+			switch x := e.(type) {
+			case *ast.Ident:
+				return taint[x.Name]
+			case *ast.ParenExpr:
+				return isText(x.X)
+			case *ast.SliceExpr:
+				// a constant one-character prefix/suffix probe is not the text
+				if lit, ok := x.High.(*ast.BasicLit); ok && x.Low != nil {
+					if lo, ok := x.Low.(*ast.BasicLit); ok && lo.Value == "0" && lit.Value == "1" {
+						return false
+					}
+				}
+				return isText(x.X)
+			}
+			return false
+		}
+		for changed := true; changed; {
+			changed = false
+			for _, st := range body {
+				ast.Inspect(st, func(n ast.Node) bool {
+					switch x := n.(type) {
+					case *ast.AssignStmt:
+						if len(x.Lhs) == len(x.Rhs) {
+							for i, rhs := range x.Rhs {
+								if id, ok := x.Lhs[i].(*ast.Ident); ok && id.Name != "_" && isText(rhs) && !taint[id.Name] {
+									taint[id.Name] = true
+									changed = true
+								}
+							}
+						}
+					case *ast.ValueSpec:
+						if len(x.Names) == len(x.Values) {
+							for i, rhs := range x.Values {
+								if x.Names[i].Name != "_" && isText(rhs) && !taint[x.Names[i].Name] {
+									taint[x.Names[i].Name] = true
+									changed = true
+								}
+							}
+						}
+					}
+					return true
+				})
+			}
+		}
+		sem, callee := false, ""
+		for _, st := range body {
+			ast.Inspect(st, func(n ast.Node) bool {
+				call, ok := n.(*ast.CallExpr)
+				if !ok {
+					return true
+				}
+				for i, a := range call.Args {
+					if isText(a) {
+						name := nodeStr(call.Fun)
+						display := strings.Contains(name, "setLastNodeText") || (strings.Contains(name, "pushFunction") && i == 0) || strings.Contains(name, "pushScriptQualifier")
+						if name == "len" || name == "string" {
+							display = true
+						}
+						if !display {
+							sem, callee = true, name
+						}
+					}
+				}
+				return true
+			})
+		}
+		return sem, callee
+	}
+	semantic := func(a *peg.Action) (bool, string) {
+		if cc := normActs[a.Index]; cc != nil {
+			return semanticBody(cc.Body)
+		}
 		fset := token.NewFileSet()
-		f, err := parser.ParseFile(fset, "a.go", "package p\nfunc _() {\n"+code+"\n}\n", 0)
+		f, err := parser.ParseFile(fset, "a.go", "package p\nfunc _() {\n"+a.Code+"\n}\n", 0)
 		if err != nil {
 			return true, "unparsable action"
 		}
-		sem, callee := false, ""
-		ast.Inspect(f, func(n ast.Node) bool {
-			call, ok := n.(*ast.CallExpr)
-			if !ok {
-				return true
-			}
-			for i, a := range call.Args {
-				if id, ok := a.(*ast.Ident); ok && id.Name == "text" {
-					name := nodeStr(call.Fun)
-					display := strings.Contains(name, "setLastNodeText") || (strings.Contains(name, "pushFunction") && i == 0) || strings.Contains(name, "pushScriptQualifier")
-					if !display {
-						sem, callee = true, name
-					}
-				}
-			}
-			return true
-		})
-		return sem, callee
+		return semanticBody(f.Decls[0].(*ast.FuncDecl).Body.List)
 	}
 	var walk func(rule string, e peg.Expr)
 	walk = func(rule string, e peg.Expr) {
@@ -886,7 +981,7 @@ func ruleWCapture(c *engine.Context) *report.Rule {
 					// the next action in this sequence
 					for j := i + 1; j < len(x.Items); j++ {
 						if a, ok := x.Items[j].(*peg.Action); ok {
-							if sem, callee := semantic(a.Code); sem {
+							if sem, callee := semantic(a); sem {
 								r.Instances++
 								bad := hasSpace(cp.E, map[string]bool{})
 								r.Oblige(!bad)
